@@ -42,6 +42,12 @@ pub enum Stmt {
 pub struct Scn {
     /// (statement, run inside an async callee)
     pub stmts: Vec<(Stmt, bool)>,
+    /// per statement, where the catch sits relative to an async callee (only with callee = true):
+    /// 0 try/catch inside the callee, 1 try around the awaited call, 2 the callee's promise is kept
+    /// and awaited in a try afterwards (no try block is active while the order is outstanding),
+    /// 3 a `.catch(handler)` on the callee's promise
+    #[serde(default)]
+    pub wrap: Vec<u8>,
     /// answer of order i (index i-1)
     pub answers: Vec<Ans>,
     pub tape: Tape,
@@ -62,17 +68,18 @@ pub fn render(scn: &Scn) -> String {
     for i in 1..=scn.answers.len() {
         s.push_str(&format!("let q{}: any;\n", i));
     }
-    for (st, callee) in &scn.stmts {
-        let body = match st {
-            Stmt::AwaitOrder(i) => format!(
-                "try {{ L.push(\"r{i}=\" + S(await order({{ k: {i} }}))); }} catch (e: any) {{ L.push(\"c{i}=\" + String(e)); }}"
+    for (idx, (st, callee)) in scn.stmts.iter().enumerate() {
+        // (guarded action, catch action)
+        let (x, c): (String, String) = match st {
+            Stmt::AwaitOrder(i) => (
+                format!("L.push(\"r{i}=\" + S(await order({{ k: {i} }})));"),
+                format!("L.push(\"c{i}=\" + String(e));"),
             ),
-            Stmt::Issue(i) => format!(
-                "try {{ q{i} = order({{ k: {i} }}); L.push(\"i{i}\"); }} catch (e: any) {{ L.push(\"ci{i}=\" + String(e)); }}"
+            Stmt::Issue(i) => (
+                format!("q{i} = order({{ k: {i} }}); L.push(\"i{i}\");"),
+                format!("L.push(\"ci{i}=\" + String(e));"),
             ),
-            Stmt::AwaitQ(i) => format!(
-                "try {{ L.push(\"w{i}=\" + S(await q{i})); }} catch (e: any) {{ L.push(\"cw{i}=\" + String(e)); }}"
-            ),
+            Stmt::AwaitQ(i) => (format!("L.push(\"w{i}=\" + S(await q{i}));"), format!("L.push(\"cw{i}=\" + String(e));")),
             Stmt::All(v) | Stmt::Race(v) | Stmt::Any(v) | Stmt::AllSettled(v) => {
                 let name = match st {
                     Stmt::All(_) => "all",
@@ -81,18 +88,31 @@ pub fn render(scn: &Scn) -> String {
                     _ => "allSettled",
                 };
                 let items: Vec<String> = v.iter().map(|i| format!("q{}", i)).collect();
-                format!(
-                    "try {{ L.push(\"{name}=\" + S(await Promise.{name}([{}]))); }} catch (e: any) {{ L.push(\"c{name}=\" + S(e)); }}",
-                    items.join(", ")
+                (
+                    format!("L.push(\"{name}=\" + S(await Promise.{name}([{}])));", items.join(", ")),
+                    format!("L.push(\"c{name}=\" + S(e));"),
                 )
             }
-            Stmt::Cancel(i) => format!("__cancelOrder__({i}); L.push(\"x{i}\");"),
+            Stmt::Cancel(i) => (format!("__cancelOrder__({i}); L.push(\"x{i}\");"), String::new()),
         };
-        if *callee {
-            s.push_str(&format!("await (async (): Promise<any> => {{ {} }})();\n", body));
-        } else {
-            s.push_str(&body);
+        if c.is_empty() {
+            s.push_str(&x);
             s.push('\n');
+            continue;
+        }
+        let inside = format!("try {{ {x} }} catch (e: any) {{ {c} }}");
+        if !*callee {
+            s.push_str(&inside);
+            s.push('\n');
+            continue;
+        }
+        match scn.wrap.get(idx).copied().unwrap_or(0) {
+            1 => s.push_str(&format!("try {{ await (async (): Promise<any> => {{ {x} }})(); }} catch (e: any) {{ {c} }}\n")),
+            2 => s.push_str(&format!(
+                "{{ const p: any = (async (): Promise<any> => {{ {x} }})(); try {{ await p; }} catch (e: any) {{ {c} }} }}\n"
+            )),
+            3 => s.push_str(&format!("await (async (): Promise<any> => {{ {x} }})().catch((e: any) => {{ {c} }});\n")),
+            _ => s.push_str(&format!("await (async (): Promise<any> => {{ {inside} }})();\n")),
         }
     }
     s.push_str("L.join(\";\")\n");
@@ -444,6 +464,7 @@ pub fn generate_scn(rng: &mut Rng, allow_any_allsettled: bool, trailing_order: b
     let n_orders = 1 + rng.below(6);
     let mut answers: Vec<Ans> = Vec::new();
     let mut stmts: Vec<(Stmt, bool)> = Vec::new();
+    let mut wrap_draws: Vec<u8> = Vec::new();
     // which orders are kept in q variables as promises (not yet consumed)
     let mut open_q: Vec<u8> = Vec::new(); // issued, value-or-promise in q_i, awaitable
     let mut cancelled: Vec<u8> = Vec::new();
@@ -452,7 +473,8 @@ pub fn generate_scn(rng: &mut Rng, allow_any_allsettled: bool, trailing_order: b
     let mut guard = 0;
     while (next <= total || !open_q.is_empty()) && guard < 40 {
         guard += 1;
-        let callee = rng.chance(0.25);
+        let callee = rng.chance(0.3);
+        wrap_draws.push(rng.below(4) as u8);
         let can_issue = next <= total;
         let r = rng.below(100);
         if can_issue && r < 30 {
@@ -519,8 +541,10 @@ pub fn generate_scn(rng: &mut Rng, allow_any_allsettled: bool, trailing_order: b
         answers.push(Ans::Value);
         stmts.push((Stmt::AwaitOrder(answers.len() as u8), false));
     }
+    let wrap: Vec<u8> = stmts.iter().enumerate().map(|(i, (_, callee))| if *callee { wrap_draws.get(i).copied().unwrap_or(0) } else { 0 }).collect();
     Scn {
         stmts,
+        wrap,
         answers,
         tape: Tape::random(rng, 48),
         force_collect: rng.chance(0.3),
@@ -847,12 +871,18 @@ impl Check for C08 {
                 Some(k) if k == maxo && !uses(k) => {
                     let mut s = scn.clone();
                     s.stmts.remove(i);
+                    if i < s.wrap.len() {
+                        s.wrap.remove(i);
+                    }
                     s.answers.pop();
                     out.push(s);
                 }
                 None => {
                     let mut s = scn.clone();
                     s.stmts.remove(i);
+                    if i < s.wrap.len() {
+                        s.wrap.remove(i);
+                    }
                     out.push(s);
                 }
                 _ => {}
@@ -861,6 +891,11 @@ impl Check for C08 {
                 let mut s = scn.clone();
                 s.stmts[i].1 = false;
                 out.push(s);
+                if scn.wrap.get(i).copied().unwrap_or(0) != 0 {
+                    let mut s = scn.clone();
+                    s.wrap[i] = 0;
+                    out.push(s);
+                }
             }
         }
         for i in 0..scn.answers.len() {
